@@ -86,3 +86,91 @@ def register(R):
     )
     for prop in ("C01", "C02"):
         R.group(prop, "StreamDataProducer.generate", "StreamDataConsumer.next", "StreamDataConsumer.clear")
+    register_buffered(R)
+
+
+def register_buffered(R):
+    R.module("easynetwork/lowlevel/_stream.py")
+    R.assume("buffered deserializers re-inject remainders: the remainder of a finished parse is strictly smaller than the room "
+             "after the first write position of a fresh deserializer (interface assumption S_pos0 / remainder-fits; proved for the "
+             "separator, fixed-size and line framings, assumed for abstract ones)")
+    R.inline_fn("BufferedStreamDataConsumer.__save_remainder_in_buffer", "BufferedStreamDataConsumer.__release_write_buffer_view",
+                "BufferedStreamDataConsumer.__validate_created_buffer")
+    B, K, V, C = "self.__buffer", "self.__consumer", "self.__exported_write_buffer_view", "self.__buffer_view_cache"
+    s, w = "self.__buffer_start", "self.__already_written"
+    N = f"len({B})"
+    sp = f"({s} if {s} >= 0 else {s} + {N})"
+    inv = [
+        ("no-buffer-means-idle", f"implies(isnone({B}), isnone({K}) and isnone({V}) and isnone({C}) and {w} == 0)"),
+        ("no-generator-means-nothing-pending", f"implies(isnone({K}), {w} == 0 and isnone({V}))"),
+        ("buffer-non-empty", f"implies(not isnone({B}), {N} >= 1)"),
+        ("generator-state", f"implies(not isnone({K}), not isnone({B}) and {K}.pos == {sp} and 0 <= {sp} and {sp} + {w} < {N} and {w} >= 0"
+                            f" and fn('S_kind', 'int', {K}.T) == 0)"),
+        ("cache-is-whole-buffer", f"implies(not isnone({C}), not isnone({B}) and view_of({C}, {B}) and view_lo({C}) == 0 and view_hi({C}) == {N})"),
+        ("exported-view-is-the-free-region", f"implies(not isnone({V}), view_of({V}, {B}) and view_lo({V}) == {sp} + {w} and view_hi({V}) == {N})"),
+    ]
+    R.shape(
+        "BufferedStreamDataConsumer", cls="BufferedStreamDataConsumer",
+        fields={"__protocol": "BufferedStreamProtocol", "__buffer": "opt[bytearray]", "__buffer_view_cache": "opt[viewof:__buffer]",
+                "__exported_write_buffer_view": "opt[viewof:__buffer]", "__buffer_start": "int", "__already_written": "int", "__sizehint": "int",
+                "__consumer": "opt[gen:BufferedStreamProtocol.build_packet_from_buffer@__protocol(__buffer)]"},
+        invariant=inv,
+    )
+    inv_post = [(f"inv-{n_}", e, "C01 C10") for n_, e in inv]
+    U = f"((({K}.T if not isnone({K}) else b'') + ({B}[{sp}:{sp} + {w}] if not isnone({B}) else b'')))"
+    R.contract(
+        "BufferedStreamDataConsumer.get_write_buffer",
+        result="viewof:self.__buffer",
+        requires=[("deserializer-needs-input", "fn('S_kind', 'int', b'') == 0"), ("size-hint-positive", "self.__sizehint >= 1")],
+        ghost={"U0": U},
+        ensures=[
+            ("returns-the-free-region", f"view_of(result, {B}) and view_lo(result) == {sp} + {w} and view_hi(result) == {N}", "C01 C10"),
+            ("room-for-at-least-one-byte", "len(result) >= 1", "C01 C07"),
+            ("exported", f"not isnone({V}) and view_lo({V}) == view_lo(result) and view_hi({V}) == view_hi(result)", "C10"),
+            ("a-generator-is-waiting", f"not isnone({K})", "C01"),
+            ("pending-bytes-unchanged", f"{U} == U0", "C01 C10"),
+            ("buffer-content-kept", f"implies(not isnone(old({B})), {B} == old({B}))", "C10"),
+            ("fresh-generator-starts-at-its-first-position", f"implies(isnone(old({K})), {sp} == fn('S_pos0', 'int', {N}) and {K}.T == b'')", "C01"),
+            ("existing-generator-untouched", f"implies(not isnone(old({K})), {s} == old({s}) and {K}.T == old({K}.T))", "C01 C10"),
+        ] + inv_post,
+        modifies=[B, C, V, s, K],
+        tags="C01 C10",
+    )
+    p = P("X", "BufferedStreamProtocol")
+    n = "(0 if isnone(nb_updated_bytes) else nb_updated_bytes)"
+    X = f"({K}.T + {B}[{sp}:{sp} + {w} + {n}])"
+    after_outcome = [
+        ("remainder-reinjected", f"{U} == {p['rest']}", "C01 C02 C10"),
+        ("view-released", f"isnone({V})", "C10"),
+    ]
+    R.contract(
+        "BufferedStreamDataConsumer.next",
+        params={"nb_updated_bytes": "opt[int]"},
+        result="obj",
+        requires=[("deserializer-needs-input", "fn('S_kind', 'int', b'') == 0"), ("size-hint-positive", "self.__sizehint >= 1")],
+        ghost={"U0": U, "X": f"({X} if not isnone({K}) else b'')"},
+        ensures=[
+            ("had-generator", f"not isnone(old({K}))", "C01"),
+            ("parser-done", p["done"], "C01 C02 C03"),
+            ("packet", f"result == {p['pkt']}", "C01 C02 C03"),
+        ] + after_outcome + inv_post,
+        raises={
+            "RuntimeError": [
+                ("caller-misuse-only", f"not isnone(nb_updated_bytes) and (isnone(old({V})) or nb_updated_bytes < 0 or nb_updated_bytes > len(old({V})))", "C06"),
+                ("pending-bytes-unchanged", f"{U} == U0", "C10"),
+            ] + inv_post,
+            "StopIteration": [
+                ("need-more-and-every-byte-kept",
+                 f"(isnone(old({K})) and {U} == U0) or ({n} + old({w}) == 0 and {U} == U0 and isnone({V}))"
+                 f" or ({p['need']} and not isnone({K}) and {K}.T == X and {w} == 0 and isnone({V}))", "C01 C03 C10"),
+            ] + inv_post,
+            "StreamProtocolParseError": [
+                ("parser-error", p["err"], "C02 C06"),
+                ("remainder-reported", f"exc.remaining_data == {p['rest']}", "C02 C06"),
+            ] + after_outcome + inv_post,
+        },
+        modifies=[B, C, V, s, w, K, B + ".data"],
+        tags="C01 C02 C03 C06 C10",
+    )
+    for prop in ("C01", "C02"):
+        R.group(prop, "BufferedStreamDataConsumer.get_write_buffer", "BufferedStreamDataConsumer.next")
